@@ -230,6 +230,10 @@ def explore(ctx, res, replay=None):
                 else:
                     f2[main] = neighbours(rng, files[main], rng.randint(1, 4))
                 inputs.append((f2, main, 'neighbour'))
+        for big in ('2147483646', '2147483647', '2147483648', '4294967296', '9223372036854775807', '9223372036854775808', '18446744073709551615',
+                    '18446744073709551616', '99999999999999999999', '9' * 25):
+            for tmpl in ('x := %s', 'x := y + %s', 'x := y - %s', 'IF x = %s THEN GOTO l; l: x := 1', 'PROGRAM p IN a DO x0 := a END x := RUN p WITH %s END'):
+                inputs.append(({'m': tmpl % big}, 'm', 'literal'))
         for s in ('LOOP x DO END', 'WHILE x != 0 DO END', 'PROGRAM f IN a DO END x0 := RUN f WITH 4 END', 'LOOP x DO x0 := x0 + 1; l: END',
                   'LOOP x DO LOOP y DO END END', 'l: END', 'PROGRAM f DO END x := 1', 'x := 1; LOOP x DO END; y := 2', 'x := 1;', ';', 'x := 1 ; ; y := 2', 'PROGRAM f DO x0 := 1 END', 'PROGRAM f DO x0 := 1 END x := RUN f WITH END',
                   'PROGRAM f IN a OUT DO x := 1 END x := 1', 'x := RUN f WITH 1 END PROGRAM f IN a DO x0 := a END', 'x := 2147483646', 'x := 2147483647',
